@@ -386,6 +386,33 @@ let block_case (fn : string) (args : string list) : string =
     | _ -> failwith ("block case " ^ fn)
   with Model_panic s -> s
 
+(* ---------- code spans (CodeSpan.v): position a block reader at the adv-th backtick run ---------- *)
+let code_span_case (src : string) (lines : string) (adv : string) : string =
+  try
+    let b = bytes_of_hex src in
+    let segs = List.map (fun l -> match ints_of l ',' with [a; b; p] -> mk_seg a b p | _ -> failwith "seg") (split_on ';' lines) in
+    let r = ref (un (new_block_reader b segs)) in
+    let seen = ref 0 and prev = ref 0 and target = int_of_string adv in
+    let found = ref false in
+    while not !found do
+      let ch = int_of_n (un (b_peek !r)) in
+      if ch = 255 then raise Exit;
+      if ch = 96 && !prev <> 96 && !seen = target then found := true
+      else begin
+        if ch = 96 && !prev <> 96 then incr seen;
+        prev := ch;
+        if ch = 10 then (r := un (b_advance_line !r); prev := 0) else r := un (b_advance !r (z_of_int 1))
+      end
+    done;
+    let (l0, p0) = b_position !r in
+    let (res, r') = un (codeSpanParse !r) in
+    let (l, p) = b_position r' in
+    let body = (match res with
+      | Inl segs -> "c:" ^ String.concat ";" (List.map seg_str segs)
+      | Inr s -> "t:" ^ seg_str s) in
+    Printf.sprintf "%d,%s|%s@%d,%s" (int_of_z l0) (seg_str p0) body (int_of_z l) (seg_str p)
+  with Model_panic s -> s | Exit -> "skip"
+
 let eval (fn : string) (args : string list) : string =
   match fn, args with
   | "AstProg", [n; prog] -> let (_, _, o) = run_ast_prog (int_of_string n) prog in o
@@ -422,6 +449,7 @@ let eval (fn : string) (args : string list) : string =
      | Ok None -> "nil"
      | Ok (Some (((co, cc), len), _)) -> Printf.sprintf "%s%s:%d" (s_of_bool co) (s_of_bool cc) (int_of_z len)
      | Panic -> "PANIC" | OutOfFuel -> "FUEL")
+  | "CodeSpan", [src; lines; adv] -> code_span_case src lines adv
   | "SpecDoc", [tabs; fnl; ser] -> specdoc_case tabs fnl ser
   | ("ListItemOpen" | "ThematicBreak" | "AtxOpen" | "FenceOpen" | "FenceContinue"), _ -> block_case fn args
   | "RenderTree", [cfg; src; tree] ->
